@@ -23,7 +23,7 @@ RULE = ("grid world in {LineWorld, GridWorld, DiscreteWorld incl. zero-extent ax
 COMPONENTS = {"real": ["ECAgent.Environments.DiscreteWorld.add_cell_component / remove_cell_component / cells / get_cell",
                        "ConstantGenerator", "LookupGenerator", "LineWorld / GridWorld constructors", "pandas.DataFrame"],
               "stub": ["callable generators and source buffers are harness-built"]}
-PROBES = ["source_function_removing_another_component_while_it_runs", "array_source_in_another_memory_layout", "src_callable", "src_list", "src_ndarray_int", "src_ndarray_float", "src_const", "src_lookup_list",
+PROBES = ["list_source_with_a_nan_gap", "source_function_removing_another_component_while_it_runs", "array_source_in_another_memory_layout", "src_callable", "src_list", "src_ndarray_int", "src_ndarray_float", "src_const", "src_lookup_list",
           "src_lookup_nd", "alias_after_ndarray", "alias_after_list", "zero_extent_below_populated", "readd_removed_name",
           "remove_unknown_rejected", "lookup_1d", "lookup_2d", "lookup_3d", "get_cell_compared", "generator_object_reused", "readd_live_name_overwrites", "src_lookup_reuse",
           "src_lookup_rebind", "src_const_reuse", "src_const_tuple", "src_const_subclass", "lookup_mixed_text_and_numbers",
@@ -135,12 +135,17 @@ def generate(rng, tier):
     for o_ in ops:       # memory layout of array sources (same values): other byte order, a strided view, a read-only buffer
         if o_.get("src") in ("ndarray_int", "ndarray_float") and rng.random() < 0.4:
             o_["layout"] = rng.choice(["swapped", "swapped", "strided", "readonly", "narrow"])
+    for o_ in ops:       # (drawn last) a measured raster with a gap: a list of floats one of which is float('nan')
+        if o_.get("src") == "list" and not o_.get("mixed_none") and rng.random() < 0.25:
+            o_["nan_gap"] = rng.randrange(4)
     return {"world": world, "ops": ops}
 
 
 def _same(a, b):
     if b is None or a is None:
         return a is None and b is None
+    if isinstance(b, float) and b != b:
+        return isinstance(a, (float, np.floating)) and bool(a != a)       # a gap stays a float nan (not None, not pandas.NA)
     if isinstance(b, (np.datetime64, np.timedelta64)):
         try:
             return not isinstance(a, (int, float)) and bool(a == b)      # a time stamp / duration, not a bare count
@@ -286,6 +291,10 @@ def execute(sc, ctx):
                     buf[1] = 2 ** 53 + 1 if n > 2 else 0.5
                     if n > 2:
                         buf[2] = 0.5
+                elif op.get("nan_gap") is not None and n >= 2:
+                    buf = [v + 0.5 for v in buf]
+                    buf[op["nan_gap"] % n] = float("nan")
+                    ctx.probe("list_source_with_a_nan_gap")
                 gen, vals = buf, list(buf)
             elif src == "ndarray_int":
                 buf = np.array([enc(serial, (0, i, 0)) for i in range(n)], dtype=np.int64)
